@@ -31,8 +31,13 @@ FIELDS = {
     "TheFittest": [("_genotype", "G"), ("_phenotype", "P"), ("_fitness", "QI"), ("_no_update_counter", "Z")],
     # the scalar part of EvolutionaryAlgorithm's state that the translated methods read
     "EvolutionaryAlgorithm": [("_iters", "Z"), ("_pop_size", "Z"), ("_sign", "Z"), ("_aim", "QI"), ("_calls", "Z"),
-                              ("_no_increase_num", "OZ"), ("_thefittest", "TF")],
+                              ("_no_increase_num", "OZ"), ("_thefittest", "TF"),
+                              # the part of the state the generation step works on
+                              ("_elitism", "B"), ("_keep_history", "B"), ("_n_jobs", "Z"),
+                              ("_population_g_i", "LG"), ("_population_ph_i", "LP"), ("_fitness_i", "LQ"),
+                              ("_stats", "LS"), ("_on_generation", "CB")],
 }
+# _on_generation : Optional[Callable] is modelled by (is it set, how often was it called): the callback itself is the user's
 METHODS = {
     "TheFittest": {
         "_replace": ([("new_genotype", "G"), ("new_phenotype", "P"), ("new_fitness", "Q")], None),
@@ -43,10 +48,25 @@ METHODS = {
         "_get_aim": ([("optimal_value", "OQ"), ("termination_error_value", "Q")], "QI"),
         "_termitation_check": ([], "B"),
         "get_remains_calls": ([], "Z"),
+        "_update_fittest": ([("population_g", "LG"), ("population_ph", "LP"), ("fitness", "LQ")], None),
+        "_update_stats": ([("kwargs", "SE")], None),
+        "_get_fitness": ([("population_ph", "LP")], "LQ"),
+        "_update_data": ([], None),
+        "_from_population_g_to_fitness": ([], None),
+        "fit": ([], "EvolutionaryAlgorithm"),
     },
 }
+# methods that `fit` / the generation step reach through `self.` and that subclasses override (or that are glue around the
+# user's callables): dynamic dispatch = a parameter of the generated definitions
+DISPATCH = {"_get_init_population", "_get_new_population", "_from_population_g_to_fitness", "_get_phenotype", "_update_data"}
+# calls without effect on the modelled state: seeding is C04's subject, _show_progress only prints
+IGNORED = {"check_random_state", "self._show_progress"}
+# base-class methods the theorems instantiate the dispatch with must not be overridden anywhere
+NOT_OVERRIDDEN = {"fit", "_termitation_check", "_get_fitness", "_update_fittest", "_update_stats", "_get_aim", "get_remains_calls",
+                  "get_fittest", "get_stats"}
 COQT = {"Z": "Z", "Q": "Q", "B": "bool", "QI": "Qinf", "G": "G", "P": "P", "LG": "list G", "LP": "list P", "LQ": "list Q",
-        "OZ": "option Z", "OQ": "option Q", "TF": "TheFittest", "GPQI": "G * P * Qinf",
+        "OZ": "option Z", "OQ": "option Q", "TF": "TheFittest", "GPQI": "G * P * Qinf", "LS": "list StatsEntry", "SE": "StatsEntry",
+        "CB": "bool * Z",
         "TheFittest": "TheFittest", "EvolutionaryAlgorithm": "EvolutionaryAlgorithm"}
 PREFIX = {"TheFittest": "tf", "EvolutionaryAlgorithm": "ea"}
 
@@ -113,6 +133,8 @@ class MT:
                 raise Untranslatable(e, "operator")
             if ta == "Z" and tb == "Z":
                 return f"({a} {op} {b})", "Z"
+            if ta == "Z" and tb == "LQ" and op == "*":
+                return f"(smul (ZtoQ {a}) {b})", "LQ"
             if ta in ("Z", "Q") and tb in ("Z", "Q"):
                 a = a if ta == "Q" else f"(ZtoQ {a})"
                 b = b if tb == "Q" else f"(ZtoQ {b})"
@@ -121,6 +143,8 @@ class MT:
         if isinstance(e, ast.Compare) and len(e.ops) == 1:
             (a, ta), (b, tb) = self.expr(e.left), self.expr(e.comparators[0])
             op = e.ops[0]
+            if isinstance(op, ast.IsNot) and tb == "NONE" and ta == "CB":
+                return f"(fst {a})", "B"
             if isinstance(op, (ast.IsNot, ast.Is)) and tb == "NONE" and ta in ("OZ", "OQ"):
                 test = f"(match {a} with Some _ => true | None => false end)"
                 return (test if isinstance(op, ast.IsNot) else f"(negb {test})"), "B"
@@ -161,6 +185,15 @@ class MT:
             raise Untranslatable(e, "subscript of " + ta)
         if isinstance(e, ast.Call):
             n = ast.unparse(e.func)
+            if n == "len" and len(e.args) == 1:
+                a, ta = self.expr(e.args[0])
+                if ta in ("LQ", "LG", "LP"):
+                    return f"(zlen {a})", "Z"
+            if n == "self._fitness_function" and len(e.args) == 1 and [k.arg for k in e.keywords] == [None] \
+                    and ast.unparse(e.keywords[0].value) == "self._fitness_function_args":
+                a, ta = self.expr(e.args[0])
+                if ta == "LP":
+                    return f"(fitness_function {a})", "LQ"       # the user's objective: a Section variable
             if n == "np.argmax" and len(e.args) == 1:
                 a, ta = self.expr(e.args[0])
                 if ta == "LQ":
@@ -185,15 +218,127 @@ class MT:
 
     # ---------------------------------------------------------------- statements
     def setter(self, field, code):
-        fs = FIELDS[self.cls]
-        parts = [f"{fname(self.cls, f)} := " + (code if f == field else f"{fname(self.cls, f)} self") for f, _ in fs]
-        return "{| " + "; ".join(parts) + " |}"
+        # functional field update through the generated setter (keeps the terms small: a record literal would mention `self` once per field)
+        return f"(set_{fname(self.cls, field)} ({code}) self)"
+
+    def self_call(self, call):
+        """(method name, argument codes) of  self._m(...)  /  None"""
+        if isinstance(call, ast.Call) and isinstance(call.func, ast.Attribute) and isinstance(call.func.value, ast.Name) and call.func.value.id == "self":
+            return call.func.attr
+        return None
+
+    def call_args(self, cls, m, call):
+        margs, _ = METHODS[cls][m]
+        kw = {k.arg: k.value for k in call.keywords}
+        vals = list(call.args)
+        codes = []
+        for i, (an, at) in enumerate(margs):
+            v = vals[i] if i < len(vals) else kw.get(an)
+            if v is None:
+                raise Untranslatable(call, f"argument {an} missing")
+            c, t = self.expr(v)
+            if t != at:
+                raise Untranslatable(call, f"argument {an}: {t}, expected {at}")
+            codes.append(c)
+        return codes
 
     def block(self, stmts, end):
         """end(): code for normal completion of the method (returns nothing)"""
         if not stmts:
             return end()
         s, rest = stmts[0], stmts[1:]
+        # ---- calls without effect on the modelled state
+        if isinstance(s, ast.Expr) and isinstance(s.value, ast.Call) and ast.unparse(s.value.func) in IGNORED:
+            return self.block(rest, end)
+        # ---- self._m(...) as a statement: dynamic dispatch or a translated method
+        if isinstance(s, ast.Expr) and self.self_call(s.value) is not None and self.cls == "EvolutionaryAlgorithm":
+            m = self.self_call(s.value)
+            if m in DISPATCH and not s.value.args and not s.value.keywords:
+                self.writes = True
+                return f"let self := d{m} self in\n" + self.block(rest, end)
+            if m == "_update_stats" and not s.value.args:
+                names = [k.arg for k in s.value.keywords]
+                if names != ["fitness", "population_g", "population_ph", "max_fitness", "max_g", "max_ph"]:
+                    raise Untranslatable(s, f"_update_stats called with {names}")
+                vs = [self.expr(k.value) for k in s.value.keywords]
+                if [t for _, t in vs] != ["LQ", "LG", "LP", "Q", "G", "P"]:
+                    raise Untranslatable(s, "types of the recorded values: " + str([t for _, t in vs]))
+                entry = "{| " + "; ".join(f"se_{n} := {c}" for n, (c, _) in zip(names, vs)) + " |}"
+                self.writes = True
+                return f"let self := py_EvolutionaryAlgorithm__update_stats self {entry} in\n" + self.block(rest, end)
+            if m == "_on_generation" and len(s.value.args) == 1 and ast.unparse(s.value.args[0]) == "self":
+                self.writes = True
+                cb = f"(fst ({fname(self.cls, '_on_generation')} self), snd ({fname(self.cls, '_on_generation')} self) + 1)"
+                return f"let self := {self.setter('_on_generation', cb)} in\n" + self.block(rest, end)
+        # ---- self._thefittest._update(...) / self._stats._update(kwargs)
+        if isinstance(s, ast.Expr) and isinstance(s.value, ast.Call) and isinstance(s.value.func, ast.Attribute) and s.value.func.attr == "_update":
+            tgt = ast.unparse(s.value.func.value)
+            if tgt == "self._thefittest":
+                codes = self.call_args("TheFittest", "_update", s.value)
+                self.writes = True
+                return (f"let self := {self.setter('_thefittest', 'py_TheFittest__update (' + fname(self.cls, '_thefittest') + ' self) ' + ' '.join(codes))} in\n"
+                        + self.block(rest, end))
+            if tgt == "self._stats" and len(s.value.args) == 1:
+                c, t = self.expr(s.value.args[0])
+                if t != "SE":
+                    raise Untranslatable(s, "argument of Statistics._update")
+                self.writes = True      # Statistics._update (pinned below): one copied entry appended per key
+                return f"let self := {self.setter('_stats', '(' + fname(self.cls, '_stats') + ' self ++ [' + c + '])')} in\n" + self.block(rest, end)
+        # ---- x = self._m(...)  /  self._f = self._m(...)
+        if isinstance(s, ast.Assign) and len(s.targets) == 1 and self.self_call(s.value) is not None and self.cls == "EvolutionaryAlgorithm":
+            m = self.self_call(s.value)
+            tgt = s.targets[0]
+            if m == "_get_phenotype" and len(s.value.args) == 1:
+                a, ta = self.expr(s.value.args[0])
+                if ta != "LG":
+                    raise Untranslatable(s, "argument of _get_phenotype")
+                vcode, vt, pre = f"(d_get_phenotype self {a})", "LP", ""
+            elif m in METHODS[self.cls] and METHODS[self.cls][m][1] is not None:
+                codes = self.call_args(self.cls, m, s.value)
+                vt = METHODS[self.cls][m][1]
+                tmp = "v_" + m.strip("_")
+                pre = f"let '(self, {tmp}) := py_{self.cls}_{m} self {' '.join(codes)} in\n"
+                vcode = tmp
+                self.writes = True
+            else:
+                raise Untranslatable(s, "value of self." + m)
+            if isinstance(tgt, ast.Name):
+                self.env[tgt.id] = vt
+                return pre + f"let {tgt.id} := {vcode} in\n" + self.block(rest, end)
+            if isinstance(tgt, ast.Attribute) and isinstance(tgt.value, ast.Name) and tgt.value.id == "self":
+                if self.field_type(self.cls, tgt.attr) != vt:
+                    raise Untranslatable(s, "field type")
+                self.writes = True
+                return pre + f"let self := {self.setter(tgt.attr, vcode)} in\n" + self.block(rest, end)
+        # ---- (self._population_g_i[-1], self._population_ph_i[-1], self._fitness_i[-1]) = self._thefittest.get().values()
+        if isinstance(s, ast.Assign) and isinstance(s.targets[0], ast.Tuple) and ast.unparse(s.value) == "self._thefittest.get().values()":
+            tg = [ast.unparse(t) for t in s.targets[0].elts]
+            if tg != ["self._population_g_i[-1]", "self._population_ph_i[-1]", "self._fitness_i[-1]"]:
+                raise Untranslatable(s, "elitism write targets " + str(tg))
+            self.writes = True
+            tf = f"(py_TheFittest_get ({fname(self.cls, '_thefittest')} self))"
+            code = (f"let '(e_g, e_ph, e_fit) := {tf} in\n"
+                    f"let self := {self.setter('_population_g_i', 'set_last (' + fname(self.cls, '_population_g_i') + ' self) e_g')} in\n"
+                    f"let self := {self.setter('_population_ph_i', 'set_last (' + fname(self.cls, '_population_ph_i') + ' self) e_ph')} in\n"
+                    f"let self := {self.setter('_fitness_i', 'set_last (' + fname(self.cls, '_fitness_i') + ' self) (Qinf_val e_fit)')} in\n")
+            return code + self.block(rest, end)
+        # ---- if self._n_jobs > 1: <joblib> else: <serial>      (the parallel branch is C16's subject: an opaque parameter here)
+        if isinstance(s, ast.If) and ast.unparse(s.test) == "self._n_jobs > 1" and s.orelse:
+            outs = [t.id for st in s.orelse if isinstance(st, ast.Assign) for t in st.targets if isinstance(t, ast.Name)]
+            if len(outs) != 1 or not isinstance(s.orelse[-1], ast.Assign):
+                raise Untranslatable(s, "shape of the serial branch")
+            x = outs[0]
+            c, t = self.expr(s.orelse[-1].value)
+            self.env[x] = t
+            arg = ast.unparse(s.orelse[-1].value.args[0]) if isinstance(s.orelse[-1].value, ast.Call) and s.orelse[-1].value.args else "population_ph"
+            return (f"let {x} := (if ({fname(self.cls, '_n_jobs')} self >? 1) then par_{x} self {arg} else {c}) in\n" + self.block(rest, end))
+        # ---- for i in range(self._iters - 1): ... break ...   (fit)
+        if isinstance(s, ast.For) and ast.unparse(s.iter) == "range(self._iters - 1)" and not s.orelse:
+            def loop_end():
+                return "(self, false)"
+            body = self.loop_block(list(s.body), loop_end)
+            self.writes = True
+            return (f"let self := for_brk_p 0 (({fname(self.cls, '_iters')} self) - 1) self (fun {s.target.id} self =>\n{body}) in\n" + self.block(rest, end))
         if isinstance(s, ast.Expr) and isinstance(s.value, ast.Constant):
             return self.block(rest, end)
         if isinstance(s, ast.AnnAssign) and s.value is None:
@@ -201,6 +346,8 @@ class MT:
         if isinstance(s, ast.Return):
             if rest:
                 raise Untranslatable(s, "code after return")
+            if isinstance(s.value, ast.Name) and s.value.id == "self" and self.ret == self.cls:
+                return "self"
             c, t = self.expr(s.value)
             if t != self.ret:
                 if t == "Q" and self.ret == "QI":
@@ -271,6 +418,27 @@ class MT:
             return f"if {c} then (\n{a})\nelse (\n{b})"
         raise Untranslatable(s, "statement " + type(s).__name__)
 
+    def loop_block(self, stmts, end):
+        """body of the generation loop of fit: `break` ends the loop"""
+        if not stmts:
+            return end()
+        s, rest = stmts[0], stmts[1:]
+        if isinstance(s, ast.Break):
+            return "(self, true)"
+        if isinstance(s, ast.If):
+            t = s.test
+            if self.self_call(t) is not None and self.self_call(t) in METHODS[self.cls] and METHODS[self.cls][self.self_call(t)][1] == "B" and not t.args:
+                c = f"(py_{self.cls}_{self.self_call(t)} self)"
+            else:
+                c, tt = self.expr(t)
+                if tt != "B":
+                    raise Untranslatable(s, "condition type")
+            a = self.loop_block(list(s.body) + rest, end)
+            b = self.loop_block(list(s.orelse) + rest, end)
+            return f"if {c} then (\n{a})\nelse (\n{b})"
+        # any other statement: translate it alone and continue
+        return self.block([s], lambda: self.loop_block(rest, end))
+
     def result(self, c):
         return f"(self, {c})" if self.writes_anywhere else c
 
@@ -281,7 +449,10 @@ class MT:
             or (isinstance(n, ast.Call) and isinstance(n.func, ast.Attribute) and isinstance(n.func.value, ast.Name)
                 and n.func.value.id == "self" and n.func.attr in METHODS[self.cls] and METHODS[self.cls][n.func.attr][1] is None)
             for n in ast.walk(self.node))
-        params = [a.arg for a in self.node.args.args]
+        PURE = {"_get_aim", "_termitation_check", "get_remains_calls"}
+        if self.cls == "EvolutionaryAlgorithm" and self.name not in PURE:
+            self.writes_anywhere = True
+        params = [a.arg for a in self.node.args.args] + ([self.node.args.kwarg.arg] if self.node.args.kwarg else [])
         if params[:1] != ["self"] or params[1:] != [a for a, _ in self.args]:
             raise Untranslatable(self.node, f"parameters {params} differ from the declared {[a for a, _ in self.args]}")
 
@@ -290,7 +461,7 @@ class MT:
                 raise Untranslatable(self.node, "control reaches the end of a method that returns a value")
             return "self"
         body = self.block(list(self.node.body), end)
-        rt = COQT[self.cls] if self.ret is None else (f"{COQT[self.cls]} * ({COQT[self.ret]})" if self.writes_anywhere else COQT[self.ret])
+        rt = COQT[self.cls] if (self.ret is None or self.ret == self.cls) else (f"{COQT[self.cls]} * ({COQT[self.ret]})" if self.writes_anywhere else COQT[self.ret])
         ps = " ".join(f"({a} : {COQT[t]})" for a, t in self.args)
         return f"Definition py_{self.cls}_{self.name} (self : {COQT[self.cls]}) {ps} : {rt} :=\n{body}."
 
@@ -316,13 +487,48 @@ def emit(out_file=OUT_FILE, src_root=None):
     L_ = ["(* GENERATED on every run by harness/translate_loop.py from src/thefittest/base/_ea.py; DO NOT EDIT. *)",
           "From TF Require Import Py.", "Open Scope Z_scope.", "", "Section Loop.",
           "Variables G P : Type.", "Variables (dG : G) (dP : P).   (* what an out-of-range read of a population yields *)", ""]
+    # Statistics._update is read as "append one copied entry per key": pinned by its text
+    stat = classes.get("Statistics")
+    want_stat = ("def _update(self, arg: Dict[str, Any]) -> None:\n    for key, value in arg.items():\n        try:\n            value_to_append = value.copy()\n"
+                 "        except AttributeError:\n            value_to_append = value\n        if key not in self.keys():\n            self[key] = [value_to_append]\n"
+                 "        else:\n            self[key].append(value_to_append)")
+    got_stat = ast.unparse([n for n in stat.body if isinstance(n, ast.FunctionDef) and n.name == "_update"][0]) if stat else None
+    if got_stat != want_stat:
+        raise Untranslatable(stat or mod, "Statistics._update is no longer the pinned 'append a copy of every value under its key'")
+    # the base-class methods the theorems are about must not be overridden by any optimizer
+    import glob
+    over = []
+    for fpath in sorted(glob.glob(os.path.join(src_root or C.SRC, "thefittest", "optimizers", "*.py"))):
+        for n in ast.parse(open(fpath).read()).body:
+            if isinstance(n, ast.ClassDef):
+                for f in n.body:
+                    if isinstance(f, ast.FunctionDef) and f.name in NOT_OVERRIDDEN:
+                        over.append(f"{os.path.basename(fpath)}:{n.name}.{f.name}")
+    if over:
+        raise Untranslatable(mod, "base-class loop methods are overridden: " + ", ".join(over))
     failed = []
     for cls in ("TheFittest", "EvolutionaryAlgorithm"):
         if cls not in classes:
             raise Untranslatable(mod, f"class {cls} not found")
         fs = FIELDS[cls]
+        if cls == "EvolutionaryAlgorithm":
+            L_.append("(* one history entry: the keyword arguments of _update_stats in _update_data *)")
+            L_.append("Record StatsEntry := { se_fitness : list Q; se_population_g : list G; se_population_ph : list P; se_max_fitness : Q; se_max_g : G; se_max_ph : P }.")
+            L_.append("")
         L_.append(f"Record {cls} := {{ " + "; ".join(f"{fname(cls, f)} : {COQT[t]}" for f, t in fs) + " }.")
         L_.append("")
+        L_.append(f"(* functional field updates of {cls} *)")
+        for f0, t0 in fs:
+            parts = [f"{fname(cls, f1)} := " + ("v" if f1 == f0 else f"{fname(cls, f1)} self") for f1, _ in fs]
+            L_.append(f"Definition set_{fname(cls, f0)} (v : {COQT[t0]}) (self : {cls}) : {cls} := {{| " + "; ".join(parts) + " |}.")
+        L_.append("")
+        if cls == "EvolutionaryAlgorithm":
+            L_.append("(* the user's objective; the joblib branch of _get_fitness (C16's subject); dynamic dispatch of the methods that subclasses override *)")
+            L_.append("Variable fitness_function : list P -> list Q.")
+            L_.append("Variable par_value : EvolutionaryAlgorithm -> list P -> list Q.")
+            L_.append("Variable d_get_phenotype : EvolutionaryAlgorithm -> list G -> list P.")
+            L_.append("Variables d_get_init_population d_get_new_population d_update_data d_from_population_g_to_fitness : EvolutionaryAlgorithm -> EvolutionaryAlgorithm.")
+            L_.append("")
         defs = {n.name: n for n in classes[cls].body if isinstance(n, ast.FunctionDef)}
         if cls == "TheFittest":
             iv = init_of(cls, defs["__init__"])
@@ -334,7 +540,9 @@ def emit(out_file=OUT_FILE, src_root=None):
         if cls == "EvolutionaryAlgorithm":
             iv = init_of(cls, defs["__init__"])
             want = {"_sign": "-1 if minimization else 1", "_aim": "self._get_aim(optimal_value, termination_error_value)", "_calls": "0",
-                    "_thefittest": "TheFittest()", "_iters": "iters", "_pop_size": "pop_size", "_no_increase_num": "no_increase_num"}
+                    "_thefittest": "TheFittest()", "_iters": "iters", "_pop_size": "pop_size", "_no_increase_num": "no_increase_num",
+                    "_elitism": "elitism", "_keep_history": "keep_history", "_stats": "Statistics()", "_on_generation": "on_generation",
+                    "_n_jobs": "self._get_n_jobs(n_jobs)"}
             bad = {k: iv.get(k) for k, v in want.items() if iv.get(k) != v}
             if bad:
                 raise Untranslatable(defs["__init__"], f"EvolutionaryAlgorithm.__init__ initialises the loop state differently: {bad}")
@@ -351,12 +559,15 @@ def emit(out_file=OUT_FILE, src_root=None):
                 L_.append(f"(* UNTRANSLATABLE {cls}.{m}: {str(ex).replace('*)', '* )')} *)")
             L_.append("")
     L_.append("(* EvolutionaryAlgorithm.__init__ (checked line by line by the translator): _sign = -1 if minimization else 1; _aim = _get_aim(optimal_value,")
-    L_.append("   termination_error_value) evaluated with that sign; _calls = 0; _thefittest = TheFittest(); _iters, _pop_size, _no_increase_num as given *)")
-    L_.append("Definition py_EvolutionaryAlgorithm_init (iters pop_size : Z) (minimization : bool) (optimal_value : option Q) (termination_error_value : Q) (no_increase_num : option Z) : EvolutionaryAlgorithm :=")
+    L_.append("   termination_error_value) evaluated with that sign; _calls = 0; _thefittest = TheFittest(); _stats = Statistics(); _iters, _pop_size,")
+    L_.append("   _no_increase_num, _elitism, _keep_history, _on_generation as given; _n_jobs = _get_n_jobs(n_jobs) (C16); the populations are not set yet *)")
+    L_.append("Definition py_EvolutionaryAlgorithm_init (iters pop_size : Z) (minimization : bool) (optimal_value : option Q) (termination_error_value : Q) (no_increase_num : option Z)")
+    L_.append("    (elitism keep_history : bool) (n_jobs : Z) (has_callback : bool) : EvolutionaryAlgorithm :=")
     L_.append("  let sign := if minimization then -1 else 1 in")
-    L_.append("  let pre := {| ea_iters := iters; ea_pop_size := pop_size; ea_sign := sign; ea_aim := PosInf; ea_calls := 0; ea_no_increase_num := no_increase_num; ea_thefittest := py_TheFittest_init |} in")
-    L_.append("  {| ea_iters := iters; ea_pop_size := pop_size; ea_sign := sign; ea_aim := py_EvolutionaryAlgorithm__get_aim pre optimal_value termination_error_value;")
-    L_.append("     ea_calls := 0; ea_no_increase_num := no_increase_num; ea_thefittest := py_TheFittest_init |}.")
+    L_.append("  let mk aim := {| ea_iters := iters; ea_pop_size := pop_size; ea_sign := sign; ea_aim := aim; ea_calls := 0; ea_no_increase_num := no_increase_num;")
+    L_.append("                   ea_thefittest := py_TheFittest_init; ea_elitism := elitism; ea_keep_history := keep_history; ea_n_jobs := n_jobs;")
+    L_.append("                   ea_population_g_i := []; ea_population_ph_i := []; ea_fitness_i := []; ea_stats := []; ea_on_generation := (has_callback, 0) |} in")
+    L_.append("  mk (py_EvolutionaryAlgorithm__get_aim (mk PosInf) optimal_value termination_error_value).")
     L_.append("")
     L_.append("End Loop.")
     text = "\n".join(L_) + "\n"
